@@ -708,7 +708,11 @@ def rand_path(rng, model, allow_reserved=True):
         # insert a detour that back-tracks: a.X..b  or a.X.Y...b
         i = rng.randrange(len(segs))
         k = rng.choice([1, 1, 2, 3])
-        detour = [rng.choice(NAMES + ['zz']) for _ in range(k)]
+        detour = [rng.choice(NAMES + ['zz']) + ('[%d]' % rng.choice([0, 1, 2]) if rng.random() < 0.4 else '') for _ in range(k)]      # the popped terms may be indexed too
+        if rng.random() < 0.3:
+            j = rng.randrange(i + 1)
+            if '[' not in segs[j]:
+                segs[j] = segs[j] + '[%d]' % rng.choice([0, 0, 1])        # ... behind an earlier indexed term
         segs = segs[:i + 1] + detour + [''] * k + segs[i + 1:]
         if segs[-1] == '':      # would end with dots: add a final name
             segs.append(rng.choice(NAMES))
